@@ -128,4 +128,127 @@ theorem pathDistance_refines (norm : List K → K) {xs ys zs : List K} (pids : L
   rw [show pids.length + 2 + F = pids.length + 1 + 1 + F by omega]
   simp only [e, Py.finish, Option.map, pathDistance]
 
+/-! ## `LMeasure.euc_distance`, `diameter` -/
+
+/-- **`LMeasure.euc_distance` as translated = EucDistance**: the norm of (point of the node − point of node 0) when the first row is typed as
+soma; otherwise it raises (the `ValueError` of `Tree.soma`), at every node -/
+theorem eucDistance_refines (norm : List K → K) {xs ys zs : List K} (ids pids types : List Int) (hc : Cols pids.length xs ys zs)
+    (k : Nat) (hk : k < pids.length) :
+    lm_euc_distance norm ids pids types xs ys zs (k : Int) =
+      if types.head? = some Gen.Consts.type_soma then some (eucDistance norm xs ys zs (k : Int)) else none := by
+  simp only [lm_euc_distance, lm_euc_distance.body, Py.seq, Py.bind, RefineLm.tree_soma_eq]
+  by_cases h : types.head? = some Gen.Consts.type_soma
+  · have := node_distance_eq norm hc k 0 hk (by omega)
+    simp only [Int.natCast_zero] at this
+    simp [h, this, Py.finish, eucDistance]
+  · simp [h, Py.finish]
+
+/-- **`LMeasure.diameter` as translated** = 2 · radius of the node (reads the radius column at the node's row) -/
+theorem diameter_refines (F : Py.Fld K) (rs : List K) (k : Nat) (hk : k < rs.length) :
+    lm_diameter F rs (k : Int) = some (diameter F rs (k : Int)) := by
+  simp [lm_diameter, lm_diameter.body, Py.bind, idx_col rs k hk, Py.finish, diameter]
+
+/-! ## bifurcation level: `_rall_power_d`, `pk_2`, `_bif_vector_local`, `bif_ampl_local` -/
+
+/-- the children of a node of a tree object, in table order -/
+abbrev kids (pids : List Int) (k : Int) : List Int := tableKids (Sub.rangeI pids.length) pids k
+
+theorem kids_valid (pids : List Int) (k c : Int) (h : c ∈ kids pids k) : ∃ j : Nat, c = (j : Int) ∧ j < pids.length := by
+  have : ∀ (ids ps : List Int), c ∈ tableKids ids ps k → c ∈ ids := by
+    intro ids
+    induction ids with
+    | nil => intro ps h; simp [tableKids] at h
+    | cons i is ih =>
+      intro ps h
+      cases ps with
+      | nil => simp [tableKids] at h
+      | cons p ps =>
+        by_cases hp : p = k
+        · simp only [tableKids, hp, if_true, List.mem_cons] at h
+          rcases h with h | h
+          · simp [h]
+          · exact List.mem_cons_of_mem _ (ih ps h)
+        · simp only [tableKids, hp, if_false] at h
+          exact List.mem_cons_of_mem _ (ih ps h)
+  have hm := this _ _ h
+  simp only [Sub.rangeI, List.mem_map, List.mem_range] at hm
+  obtain ⟨j, hj, rfl⟩ := hm
+  exact ⟨j, rfl, hj⟩
+
+theorem dec_len_pair (a b : Int) : decide (Py.len [a, b] = (2 : Int)) = true := by simp [Py.len]
+theorem idx_pair0 (a b : Int) : Py.idx [a, b] (0 : Int) = some a := by simp [Py.idx, Py.normIdx]
+theorem idx_pair1 (a b : Int) : Py.idx [a, b] (1 : Int) = some b := by simp [Py.idx, Py.normIdx]
+theorem node_parent_some (pids : List Int) (k : Nat) (hk : k < pids.length) (p : Int) (hp : pids.getD k (-1) = p) (hne : p ≠ -1) :
+    node_parent pids (k : Int) = some (some p) := by
+  rw [RefineLm.node_parent_eq pids k hk, hp, if_neg hne]
+theorem node_parent_none (pids : List Int) (k : Nat) (hk : k < pids.length) (hp : pids.getD k (-1) = -1) :
+    node_parent pids (k : Int) = some none := by
+  rw [RefineLm.node_parent_eq pids k hk, hp, if_pos rfl]
+
+/-- **`LMeasure._rall_power_d` as translated**: at a node with exactly two children `a`, `b` (table order) that has a parent `p`, the diameters
+`(2·r[p], 2·r[a], 2·r[b])` -/
+theorem rallPowerD_refines (F : Py.Fld K) (pids : List Int) (rs : List K) (hr : rs.length = pids.length) (k : Nat) (hk : k < pids.length)
+    (a b : Int) (hkids : kids pids (k : Int) = [a, b]) (p : Nat) (hp : pids.getD k (-1) = (p : Int)) (hpv : p < pids.length) :
+    lm_rall_power_d F (Sub.rangeI pids.length) pids rs (k : Int) = some (rallDiameters F rs (p : Int) a b) := by
+  obtain ⟨ja, rfl, hja⟩ := kids_valid pids (k : Int) a (by rw [hkids]; simp)
+  obtain ⟨jb, rfl, hjb⟩ := kids_valid pids (k : Int) b (by rw [hkids]; simp)
+  have hne : ((p : Int) ≠ -1) := by omega
+  simp only [lm_rall_power_d, lm_rall_power_d.body, Py.seq, Py.bind, RefineLm.node_children_eq pids k hk, hkids, dec_len_pair, if_true,
+    eq_self_iff_true, Option.isSome_some, node_parent_some pids k hk p hp hne, idx_col rs p (by omega), idx_col rs ja (by omega), idx_col rs jb (by omega), Py.finish,
+    idx_pair0, idx_pair1]
+  simp [rallDiameters, diameter]
+
+/-- not a bifurcation (the number of children is not 2): the `assert` fails -/
+theorem rallPowerD_not_bif (F : Py.Fld K) (pids : List Int) (rs : List K) (k : Nat) (hk : k < pids.length)
+    (hkids : (kids pids (k : Int)).length ≠ 2) :
+    lm_rall_power_d F (Sub.rangeI pids.length) pids rs (k : Int) = none := by
+  have : ¬ (((kids pids (k : Int)).length : Int) = 2) := by omega
+  simp [lm_rall_power_d, lm_rall_power_d.body, Py.seq, Py.bind, RefineLm.node_children_eq pids k hk, Py.len, this, Py.finish]
+
+/-- at the root (no parent): the second `assert` fails -/
+theorem rallPowerD_root (F : Py.Fld K) (pids : List Int) (rs : List K) (k : Nat) (hk : k < pids.length) (hp : pids.getD k (-1) = -1) :
+    lm_rall_power_d F (Sub.rangeI pids.length) pids rs (k : Int) = none := by
+  by_cases h2 : (((kids pids (k : Int)).length : Int) = 2)
+  · simp [lm_rall_power_d, lm_rall_power_d.body, Py.seq, Py.bind, RefineLm.node_children_eq pids k hk, Py.len, h2,
+      node_parent_none pids k hk hp, Py.finish]
+  · simp [lm_rall_power_d, lm_rall_power_d.body, Py.seq, Py.bind, RefineLm.node_children_eq pids k hk, Py.len, h2, Py.finish]
+
+theorem powInt_two (x : K) : Py.LG.powInt x 2 = some ((1 : K) * x * x) := by
+  simp [Py.LG.powInt, List.replicate]
+
+/-- **`LMeasure.pk_2` as translated** = (d_a² + d_b²) / d_p² on the diameters of `_rall_power_d` (`none` when that is undefined or d_p² = 0) -/
+theorem pk2_refines (F : Py.Fld K) (pids : List Int) (rs : List K) (hr : rs.length = pids.length) (k : Nat) (hk : k < pids.length)
+    (a b : Int) (hkids : kids pids (k : Int) = [a, b]) (p : Nat) (hp : pids.getD k (-1) = (p : Int)) (hpv : p < pids.length) :
+    lm_pk_2 F (Sub.rangeI pids.length) pids rs (k : Int) = pk2 F rs (p : Int) a b := by
+  simp only [lm_pk_2, lm_pk_2.body, Py.seq, Py.bind, rallPowerD_refines F pids rs hr k hk a b hkids p hp hpv, rallDiameters, powInt_two, pk2]
+  cases h : Py.fdiv ((1 : K) * diameter F rs a * diameter F rs a + (1 : K) * diameter F rs b * diameter F rs b)
+      ((1 : K) * diameter F rs (p : Int) * diameter F rs (p : Int)) <;> simp [h, Py.finish]
+
+/-- **`LMeasure._bif_vector_local` as translated**: at a node with exactly two children `a`, `b` the vectors (point a − point of the node,
+point b − point of the node) -/
+theorem bifVectorLocal_refines {xs ys zs : List K} (pids : List Int) (hc : Cols pids.length xs ys zs) (k : Nat) (hk : k < pids.length)
+    (a b : Int) (hkids : kids pids (k : Int) = [a, b]) :
+    lm_bif_vector_local (Sub.rangeI pids.length) pids xs ys zs (k : Int) = some (bifVectorsLocal xs ys zs (k : Int) a b) := by
+  obtain ⟨ja, rfl, hja⟩ := kids_valid pids (k : Int) a (by rw [hkids]; simp)
+  obtain ⟨jb, rfl, hjb⟩ := kids_valid pids (k : Int) b (by rw [hkids]; simp)
+  simp only [lm_bif_vector_local, lm_bif_vector_local.body, Py.seq, Py.bind, RefineLm.node_children_eq pids k hk, hkids, dec_len_pair, if_true,
+    eq_self_iff_true, node_xyz_eq hc k hk, node_xyz_eq hc ja hja, node_xyz_eq hc jb hjb, subArr_pos, Py.finish, idx_pair0, idx_pair1]
+  simp [bifVectorsLocal]
+
+/-- not a bifurcation: the `assert` fails -/
+theorem bifVectorLocal_not_bif {xs ys zs : List K} (pids : List Int) (k : Nat) (hk : k < pids.length)
+    (hkids : (kids pids (k : Int)).length ≠ 2) :
+    lm_bif_vector_local (Sub.rangeI pids.length) pids xs ys zs (k : Int) = none := by
+  have : ¬ (((kids pids (k : Int)).length : Int) = 2) := by omega
+  simp [lm_bif_vector_local, lm_bif_vector_local.body, Py.seq, Py.bind, RefineLm.node_children_eq pids k hk, Py.len, this, Py.finish]
+
+/-- **`LMeasure.bif_ampl_local` as translated** = `degrees (angle (a − v) (b − v))` for the two children `a`, `b` of the bifurcation `v`
+(`angle` raises on a zero vector: `none`) -/
+theorem bifAmplLocal_refines (angle : List K → List K → Option K) (degrees : K → K) {xs ys zs : List K} (pids : List Int)
+    (hc : Cols pids.length xs ys zs) (k : Nat) (hk : k < pids.length) (a b : Int) (hkids : kids pids (k : Int) = [a, b]) :
+    lm_bif_ampl_local angle degrees (Sub.rangeI pids.length) pids xs ys zs (k : Int) =
+      (angle (bifVectorsLocal xs ys zs (k : Int) a b).1 (bifVectorsLocal xs ys zs (k : Int) a b).2).map degrees := by
+  simp only [lm_bif_ampl_local, lm_bif_ampl_local.body, Py.seq, Py.bind, bifVectorLocal_refines pids hc k hk a b hkids]
+  cases h : angle (bifVectorsLocal xs ys zs (k : Int) a b).1 (bifVectorsLocal xs ys zs (k : Int) a b).2 <;> simp [h, Py.finish]
+
 end RefineLmGeo
